@@ -71,7 +71,9 @@ CLOCKFACTS = [("QuartzModel.Theorems.ClockFacts", "Sched.Clock." + t) for t in [
     ("QuartzModel.Theorems.ClockFacts", "Facts.missing_none_clockorder")]
 THEOREMS = {
     # (a job popped before its time must go back with its fire time untouched: the dispatch step's facts are obligations here too)
-    "C05": TIMERFACTS + [t for t in SCHEDFACTS if t[0] == "QuartzModel.Theorems.SchedFacts"] + [("QuartzModel.Theorems.MissingWakeup", "Facts.missing_none_wakeup"),
+    # "the only permitted delays are a job executing in blocking mode and a full worker pool": which arm of the dispatch switch takes a fetched job
+    # (and that startWorkers agrees with it) is the business of the C12 facts
+    "C05": [("QuartzModel.Theorems.C12", "Pool.C12_facts")] + TIMERFACTS + [t for t in SCHEDFACTS if t[0] == "QuartzModel.Theorems.SchedFacts"] + [("QuartzModel.Theorems.MissingWakeup", "Facts.missing_none_wakeup"),
                          ("QuartzModel.Theorems.RestartFacts", "Facts.loop_reschedule_sends_token")] + [("QuartzModel.Theorems.C05", "Wakeup." + t) for t in [
         "C05_facts_wf", "C05_invariant", "C05_parked_correct", "C05_never_lost", "C05_token_rereads", "C05_send_never_blocks", "C05_holds",
         "C05_lost_unbuffered", "C05_lost_without_send", "C05_lost_send_before", "C05_lost_without_reread", "C05_blocking_send_deadlocks"]] +
